@@ -855,6 +855,11 @@ func ruleAtom3(c *Ctx, r *Reporter) {
 					if chk.OkSucc == m.Block() || chk.OkSucc.Dominates(m.Block()) {
 						dom = true
 					}
+					// a step that only runs under a condition (name == "": compute it): nothing that follows its
+					// failure edge reaches the mutation, and the mutation cannot come before it
+					if !dom && !v.Block().Dominates(m.Block()) && !blockReach([]*ssa.BasicBlock{chk.FailSucc}, nil)[m.Block()] && chk.FailSucc != m.Block() && !instrReaches(m, v) {
+						dom = true
+					}
 				}
 				if !dom {
 					late = append(late, c.pos(m.Pos()))
